@@ -51,6 +51,8 @@ pub mod sched {
         pub blocked: BTreeMap<u32, usize>,
         /// address of a lock -> entities holding it (several readers of an RwLock)
         pub holders: HashMap<usize, Vec<u32>>,
+        /// entities that opened a parallel region and wait for it to complete
+        pub waiting_for_region: BTreeSet<u32>,
         pub active: bool,
         pub current: Option<u32>,
         pub next_id: u32,
@@ -213,6 +215,12 @@ pub mod sched {
         if !st.holders.get(&addr).map(|v| !v.is_empty()).unwrap_or(false) {
             return false;
         }
+        // The holder waits for a parallel region it opened: with rayon's work stealing the thread of a waiting task runs other
+        // pending tasks ON ITS OWN STACK - this very task among them - and std locks are not re-entrant: the run can hang.
+        if let Some(h) = st.holders[&addr].iter().find(|h| st.waiting_for_region.contains(h)) {
+            eprintln!("VERIF-DEADLOCK under the controlled scheduler: entity {} holds the lock at {:#x} while it waits for a parallel region it opened, and entity {} - a task that rayon's work stealing may run on the holder's own thread - needs that lock ({}); schedule so far {:?}", h, addr, me, _what, st.choices.iter().map(|c| c.0).collect::<Vec<_>>());
+            std::process::abort();
+        }
         st.blocked.insert(me, addr);
         pick_next(st);
         CV.notify_all();
@@ -302,6 +310,7 @@ fn run_region<'a, T: Send + 'a>(thunks: Vec<Thunk<'a, T>>) -> (Vec<Option<T>>, V
         }).collect();
         st.regions += 1;
         st.tasks += n as u64;
+        st.waiting_for_region.insert(me);
         (me, ids)
     };
     std::thread::scope(|s| {
@@ -353,6 +362,7 @@ fn run_region<'a, T: Send + 'a>(thunks: Vec<Thunk<'a, T>>) -> (Vec<Option<T>>, V
         while g.as_ref().unwrap().current != Some(me) {
             g = sched::CV.wait(g).unwrap();
         }
+        g.as_mut().unwrap().waiting_for_region.remove(&me);
     });
     if let Some(p) = panic_slot.into_inner().unwrap() {
         resume_unwind(p);
